@@ -42,6 +42,8 @@ func c01(w *core.World, r *core.Report) {
 		}
 	}
 
+	r.Rule("R01.9", "the configured target database (0 included) is what the replay paths are given; -1 only when none was configured", 1)
+	ruleTargetDbConfigured(w, r)
 	r.Rule("R12.4", "the arguments replayed are the bytes the source sent: bulk framing of the decoder and ParseArgs slicing (shared with C12)", 2)
 	ruleBulkFraming(w, r)
 	r.Rule("R12.2", "the stream is read by the decoder only (shared with C12)", 3)
@@ -1284,4 +1286,104 @@ func ruleDbTracking(w *core.World, r *core.Report) {
 		}
 		r.Check(esc == nil && len(emits) > 0 && okFail, short+"/db-switch-emitted", sd.Pos(), "when selectDB reports a change the switch must reach the target (with selectDB's database) before the next entry is handled, and a failed switch must end the replay; otherwise the tracked database and the connection disagree and later keys land in the wrong database (escape=%v, emissions=%d, failure ends replay=%v)", esc != nil, len(emits), okFail)
 	}
+}
+
+// ---------------------------------------------------------------- R01.9 the configured target database reaches the replay paths
+
+// ruleTargetDbConfigured: selectDB takes "every source database goes to this
+// one" from ReplayConfig.TargetDb (R01.6). The normalisation of the
+// configuration must hand over the value the operator wrote whenever one was
+// written — 0 included — and -1 ("keep the source's database") only when none
+// was written (or resume-from-breakpoint, which forbids a forced database, is
+// being defaulted). Decided on the value the field holds when fix returns.
+func ruleTargetDbConfigured(w *core.World, r *core.Report) {
+	f := fn(w, r, "(*config.ReplayConfig).fix")
+	if f == nil {
+		return
+	}
+	isCfgPtr := func(v ssa.Value) bool { return fieldNameOfLoad(core.Unwrap(v)) == "TargetDbCfg" }
+	isResumePtr := func(v ssa.Value) bool { return fieldNameOfLoad(core.Unwrap(v)) == "ResumeFromBreakPoint" }
+	bad := ""
+	var pos token.Pos = f.Pos()
+	n, nCfg := 0, 0
+	seen := map[string]bool{}
+	// only the part of the function from which a store to TargetDb can still be reached matters
+	isTargetDbStore := func(in ssa.Instruction) bool {
+		st, ok := in.(*ssa.Store)
+		if !ok {
+			return false
+		}
+		fa, isFa := st.Addr.(*ssa.FieldAddr)
+		return isFa && core.FieldName(fa) == "TargetDb" && strings.HasSuffix(core.TypeName(fa.X.Type()), "ReplayConfig")
+	}
+	live := map[*ssa.BasicBlock]bool{}
+	for _, b := range f.Blocks {
+		for _, in := range b.Instrs {
+			if isTargetDbStore(in) {
+				live[b] = true
+			}
+		}
+	}
+	for changed := true; changed; {
+		changed = false
+		for _, b := range f.Blocks {
+			if live[b] {
+				continue
+			}
+			for _, sc := range b.Succs {
+				if live[sc] {
+					live[b] = true
+					changed = true
+				}
+			}
+		}
+	}
+	okEnum := core.EnumPathsStop(f.Blocks[0], 0, 200000, 1, func(b *ssa.BasicBlock) bool { return !live[b] }, func(p *core.Path) {
+		if bad != "" {
+			return
+		}
+		// the last value stored into TargetDb on the path
+		var last ssa.Value
+		for _, in := range p.Instrs {
+			if st, ok := in.(*ssa.Store); ok {
+				if fa, isFa := st.Addr.(*ssa.FieldAddr); isFa && core.FieldName(fa) == "TargetDb" && strings.HasSuffix(core.TypeName(fa.X.Type()), "ReplayConfig") {
+					last = p.Resolve(st.Val)
+				}
+			}
+		}
+		if last == nil {
+			return
+		}
+		cfgSet := p.Holds(token.NEQ, isCfgPtr, core.IsNilConst)
+		cfgNil := p.Holds(token.EQL, isCfgPtr, core.IsNilConst)
+		resumeDefaulted := p.Holds(token.EQL, isResumePtr, core.IsNilConst)
+		key := fmt.Sprintf("%v/%v/%v/%s", cfgSet, cfgNil, resumeDefaulted, last.String())
+		if seen[key] {
+			return
+		}
+		seen[key] = true
+		n++
+		isConfigured := false
+		if ld, ok := core.Unwrap(last).(*ssa.UnOp); ok && ld.Op == token.MUL && isCfgPtr(ld.X) {
+			isConfigured = true
+		}
+		switch {
+		case resumeDefaulted:
+			// resume-from-breakpoint is being switched on by default: a forced database is not allowed with it
+		case cfgSet:
+			nCfg++
+			if !isConfigured {
+				bad, pos = "a target database was configured, yet the replay configuration ends up with "+last.String()+" instead of the configured value: selectDB then keeps the source's database (for instance targetDb: 0 treated as 'not set')", p.End.Pos()
+			}
+		case cfgNil:
+			if k, ok := core.ConstInt(last); !ok || k != -1 {
+				bad, pos = "no target database was configured, yet the replay configuration does not end up with -1 ('keep the source's database')", p.End.Pos()
+			}
+		}
+	})
+	if !okEnum {
+		r.Undecided("ReplayConfig.fix/target-db", f.Pos(), "too many paths")
+		return
+	}
+	r.Check(bad == "" && n > 0 && nCfg > 0, "ReplayConfig.fix/target-db", pos, "%s (distinct outcomes=%d, with a configured database=%d)", bad, n, nCfg)
 }
